@@ -51,6 +51,13 @@ def model_run_expr(case, tt):
             f"{case['nsteps']} {_obs_expr(case['obs'])} {_dflt_expr(case['dflt'])})")
 
 
+def model_pipeline_expr(case, dur_eff):
+    """summary (run_config ...): the model's own grid (adapter) composed with the model's run."""
+    mps = "true" if case["backend"].startswith("mps") else "false"
+    return (f"summary (run_config float_arith float_floor {fl(TOLB)} {fl(TOL0)} {fl(TOLU)} {mps} "
+            f"{fl(float(dur_eff))} {fl(float(case['dt']))} {_obs_expr(case['obs'])} {_dflt_expr(case['dflt'])})")
+
+
 # ---------------------------------------------------------------------------------------------
 # real objects
 class StubSeq:
